@@ -201,6 +201,25 @@ def directed(name, quick):
             P.add_sub(via[add_via], blk)
             P.act('Apply', via[apply_via])
             out.append(P.steps)
+    if name == 'drawdir':
+        # operations spanning several qubits (barriers on 3 qubits in any order of their qubits, two-qubit gates on
+        # non-adjacent rows) drawn under every channel order of three / four rows
+        import itertools
+        for compact in ('draw', 'drawnc'):
+            for bq in ((0, 1, 2), (2, 0, 1), (1, 3, 0)):
+                rows = sorted(set(bq) | {0, 1, 2})
+                for order in itertools.permutations(rows):
+                    if compact == 'drawnc' and order[0] > order[-1]:
+                        continue
+                    P = PB.Prog()
+                    c = P.new()
+                    for q_ in rows:
+                        P.add(c, PB.leaf('Rx180', [q_], [[q_, 'MICROWAVE']], ['global', 'MW']))
+                    P.add(c, PB.leaf('Barrier', list(bq), [[q_, 'ALL'] for q_ in bq], ['fixed', 2]))
+                    P.add(c, PB.leaf('CPhase', [rows[0], rows[-1]], [[rows[0], 'FLUX'], [rows[0], 'MICROWAVE'], [rows[-1], 'FLUX'], [rows[-1], 'MICROWAVE']], ['global', 'FL']))
+                    P.add(c, PB.M(rows[1]))
+                    P._step(a='Obs', c=c, what=compact, order=list(order))
+                    out.append(P.steps)
     if name == 'durhist':
         # the duration is read, then a registry duration (of a top-level or nested operation) changes without anything being
         # added, and the duration is read again; also read / unroll / read
@@ -385,7 +404,7 @@ SOURCES = {
     'C11': ('flatten', 'flatdir', 'sim', 'library'),
     'C03': ('hist', 'plothist', 'acq', 'acqdir', 'twinops', 'twinblocks', 'durhist', 'nest3', 'obsnest', 'sim'),
     'C08': ('kinds', 'export', 'sim', 'library'),
-    'C18': ('drawkinds', 'drawhist', 'drawnest'),
+    'C18': ('drawkinds', 'drawdir', 'drawhist', 'drawnest'),
     'C15': ('kinds', 'export', 'qldir', 'qlreal'),
 }
 
@@ -500,7 +519,7 @@ M_Init == /\\ heap = DoNewCircuit(DoAddOp(DoNewCircuit(<<>>, "n1", NoLink, <<"fi
       reps=[('fixed', 2), ('fixed', 3)], acts=('NewCircuit', 'AddOp', 'AddSub', 'Apply'), linktypes=(), max_circs=2, max_objs=8,
       max_steps=6 if quick else 7, workers=8, min_emit=6, timeout=120, cap=1500 if quick else 20000,
       keep=lambda p: p[-1]['a'] == 'Apply' and any(s['a'] == 'AddSub' for s in p))
-    for dn in ('flatdir', 'copyapplied', 'qldir', 'acqdir', 'unroll3', 'twinops', 'twinblocks', 'qlreal', 'durhist', 'subrel', 'nest3', 'applyalias'):
+    for dn in ('flatdir', 'copyapplied', 'qldir', 'acqdir', 'unroll3', 'twinops', 'twinblocks', 'qlreal', 'durhist', 'subrel', 'nest3', 'applyalias', 'drawdir'):
         if dn in want:
             out.append({'name': dn, 'programs': directed(dn, quick), 'generated': 0, 'tlc_states': 0, 'tlc_generated': 0, 'mode': 'directed family (python)'})
             out[-1]['generated'] = len(out[-1]['programs'])
